@@ -125,3 +125,13 @@ package car
 //@   call[loadCarFast#0] assert same_reader_and_store [C02]: arg0 == ctx && ref(arg2) == ref(cr)
 //@   call[loadCarSlow#0] assert same_reader_and_store [C02]: arg0 == ctx && ref(arg1) == ref(s) && ref(arg2) == ref(cr)
 //@   ensures open_error_propagates [C02]: nerr != nil ==> err == nerr && result0 == nil
+
+//@ func (*selectiveCarTraverser).traverseBlocks
+//@   trusted
+//@   note walks every dag with the traverser's own link system (whose loader accounts for offsets); the traversal engine is a dependency
+//@   ensures any [C15]: true
+
+//@ func WithErrorOnEmptyRoots
+//@   closure[0]
+//@     ensures sets_the_flag [C02,C09]: cr.errorOnEmptyRoots == flag && result == nil
+//@   end
